@@ -100,7 +100,7 @@ func (c hCmd) line(lmtp bool) (string, []byte) {
 		return "AUTH PLAIN " + base64.StdEncoding.EncodeToString([]byte("\x00"+c.Arg+"\x00pw")), nil
 	case "auth-noir":
 		return "AUTH PLAIN", nil
-	case "starttls":
+	case "starttls", "starttls-fail":
 		return "STARTTLS", nil
 	case "quit":
 		return "QUIT", nil
@@ -126,7 +126,7 @@ var hOps = []struct {
 	{"data", 6}, {"data-arg", 1},
 	{"bdat", 10}, {"bdat-badsize", 1}, {"bdat-3args", 1}, {"bdat-badlast", 1},
 	{"rset", 3}, {"noop", 2}, {"vrfy", 1}, {"help", 1},
-	{"auth-plain", 2}, {"auth-noir", 1}, {"starttls", 1}, {"quit", 1}, {"unknown", 2}, {"empty", 1}, {"garbage", 1},
+	{"auth-plain", 2}, {"auth-noir", 1}, {"starttls", 1}, {"starttls-fail", 1}, {"quit", 1}, {"unknown", 2}, {"empty", 1}, {"garbage", 1},
 }
 
 func genDecision(t *rapid.T, label string) harness.Decision {
@@ -137,6 +137,11 @@ func genDecision(t *rapid.T, label string) harness.Decision {
 		return harness.Decision{Kind: "smtp", Code: 451, Enh: [3]int{4, 3, 0}, Msg: "scripted 451"}
 	case 2:
 		return harness.Decision{Kind: "plain", Msg: "scripted plain error"}
+	case 3:
+		// several lines, enhanced code left unset (sent as X.0.0 on every line)
+		return harness.Decision{Kind: "smtp", Code: 550, Msg: "scripted refusal\nwith a second line\nand a third"}
+	case 4:
+		return harness.Decision{Kind: "smtp", Code: 452, Enh: [3]int{4, 2, 2}, Msg: "scripted 452\ntwo lines"}
 	}
 	return harness.Decision{}
 }
@@ -162,7 +167,12 @@ func genHistory(t *rapid.T, maxLen int, garbageCtl bool) hCase {
 	c.Script.GateStart = rapid.Bool().Draw(t, "gate_start")
 	c.Script.LogoutErr = rapid.IntRange(0, 3).Draw(t, "logout_err") == 0
 	for i := 0; i < 3; i++ {
-		c.Script.NewSession = append(c.Script.NewSession, genDecision(t, "d_newsession"))
+		// refused session creation makes the rest of a history moot: keep it rare
+		d := harness.Decision{}
+		if rapid.IntRange(0, 2).Draw(t, "newsession_may_fail") == 0 {
+			d = genDecision(t, "d_newsession")
+		}
+		c.Script.NewSession = append(c.Script.NewSession, d)
 	}
 	for i := 0; i < 8; i++ {
 		c.Script.Mail = append(c.Script.Mail, genDecision(t, "d_mail"))
@@ -178,6 +188,8 @@ func genHistory(t *rapid.T, maxLen int, garbageCtl bool) hCase {
 			p.Read.Limit = 0
 		case 2:
 			p.Result = harness.Decision{Kind: "plain", Msg: fmt.Sprintf("plain data failure %d", i)}
+		case 3:
+			p.Result = harness.Decision{Kind: "smtp", Code: 554, Msg: fmt.Sprintf("data rejection %d\nin two lines, enhanced code unset", i)}
 		}
 		c.Script.Data = append(c.Script.Data, p)
 	}
@@ -196,9 +208,12 @@ func genHistory(t *rapid.T, maxLen int, garbageCtl bool) hCase {
 	names := []string{"a", "b", "c"}
 	// approximate state, used only to bias the walk towards open transactions
 	greeted, txn, nr, chunked := false, false, 0, false
+	var forced []string
 	for i := 0; i < n; i++ {
 		op := ""
-		if rapid.IntRange(0, 9).Draw(t, "guided") < 6 {
+		if len(forced) > 0 {
+			op, forced = forced[0], forced[1:]
+		} else if rapid.IntRange(0, 9).Draw(t, "guided") < 6 {
 			switch {
 			case !greeted:
 				op = "greet"
@@ -244,6 +259,12 @@ func genHistory(t *rapid.T, maxLen int, garbageCtl bool) hCase {
 		case "starttls":
 			if c.Cfg.TLS != "" {
 				greeted, txn, nr, chunked = false, false, 0, false
+			}
+		case "starttls-fail":
+			// whatever survives a failed handshake, a new greeting starts
+			// afresh: probe the envelope right behind it half of the time
+			if c.Cfg.TLS != "" && rapid.Bool().Draw(t, "probe_after_failed_handshake") {
+				forced = []string{"greet", rapid.SampledFrom([]string{"rcpt", "data", "bdat"}).Draw(t, "probe")}
 			}
 		}
 		cmd := hCmd{Op: op}
@@ -331,6 +352,9 @@ type stepRec struct {
 	Events  []harness.Event
 	Closed  bool
 	TLS     bool // a TLS handshake was performed after this step
+	// Barrier: the octet groups of this step cannot share a segment (the
+	// second one is what the server's TLS layer reads instead of a handshake)
+	Barrier bool
 }
 
 type hRun struct {
@@ -409,6 +433,13 @@ func runLockstep(c hCase) hRun {
 					sr.Sent = append(sr.Sent, []byte(resp))
 					w.Send([]byte(resp))
 					ok = take(&sr)
+				case cmd.Op == "starttls-fail" && lastR.Code == 220:
+					// plaintext where the ClientHello should be: the handshake fails
+					junk := []byte("this-is-not-a-tls-handshake\r\n")
+					sr.Sent = append(sr.Sent, junk)
+					sr.Barrier = true
+					w.Send(junk)
+					ok = take(&sr)
 				case cmd.Op == "starttls" && lastR.Code == 220:
 					if err := w.StartTLS(); err != nil {
 						run.incon = "TLS handshake failed: " + err.Error()
@@ -477,6 +508,12 @@ type monitor struct {
 	errors       int
 	closed       bool
 	uncertain    bool
+	// lost: a TLS handshake failed. What the server keeps of the session is
+	// not specified; until the next successful greeting every step is
+	// unspecified (the trace invariants still apply), and whether an earlier
+	// authentication still counts stays open until the server shows it.
+	lost          bool
+	authUncertain bool
 	pendingBegin bool // transfer open, its Data call has not been seen to begin yet
 
 	nNew, nMail, nRcpt, nData, nSASL int
@@ -637,6 +674,34 @@ func (m *monitor) step(s stepRec) string {
 			m.nData++ // the deferred sync below counts from the filtered list
 			s.Events = kept
 		}
+	}
+	if m.lost {
+		m.unspecified++
+		if (cmd.Op == "greet" || (cmd.Op == "helo" && !m.cfg.LMTP)) && len(s.Replies) == 1 && s.Replies[0].Code == 250 {
+			for _, ns := range begins(s.Events, "NewSession") {
+				if ns.Hostname != cmd.Arg || ns.TLS != m.tls {
+					return fmt.Sprintf("%s: NewSession observed Hostname()=%q TLS=%v, want %q %v", cmd, ns.Hostname, ns.TLS, cmd.Arg, m.tls)
+				}
+			}
+			m.lost = false
+			m.session, m.greeted, m.helo = true, true, cmd.Arg
+			m.txnEnd()
+		}
+		if cmd.Op == "starttls" && len(s.Replies) == 1 && s.Replies[0].Code == 220 && s.TLS {
+			m.lost, m.authUncertain = false, false
+			m.session, m.greeted, m.helo, m.authed, m.tls = false, false, "", false, true
+			m.txnEnd()
+		}
+		return ""
+	}
+	if m.authUncertain && (cmd.Op == "auth-plain" || cmd.Op == "auth-noir") {
+		m.unspecified++
+		for _, rp := range s.Replies {
+			if rp.Code == 235 || rp.Code == 503 {
+				m.authed, m.authUncertain = true, false
+			}
+		}
+		return ""
 	}
 	authAllowed := m.tls || m.cfg.AllowInsecureAuth
 	one := func(code int) string {
@@ -1005,6 +1070,20 @@ func (m *monitor) step(s stepRec) string {
 		m.session, m.greeted, m.helo, m.authed, m.tls = false, false, "", false, true
 		m.txnEnd()
 		m.classes["starttls"] = true
+		return ""
+	case "starttls-fail":
+		if m.cfg.TLS != "starttls" || m.tls {
+			return m.refuse(s, "TLS not configured or already active")
+		}
+		if len(s.Replies) != 2 || s.Replies[0].Code != 220 || s.Replies[1].Class() == 2 || s.Replies[1].Class() == 3 {
+			return fmt.Sprintf("%s: expected 220 and, after plaintext instead of a handshake, a negative reply; got %v", cmd, replyCodes(s.Replies))
+		}
+		if e := noWork(); e != "" {
+			return e
+		}
+		m.lost, m.authUncertain = true, m.authed || m.authUncertain
+		m.uncertain = m.uncertain || m.chunked
+		m.classes["failed_tls_handshake"] = true
 		return ""
 	case "quit":
 		if e := one(221); e != "" {
